@@ -281,6 +281,7 @@ func (fx *FnCtx) basePath() *Path {
 		p.assumeWF(n, fv.Type())
 		p.assume(fmt.Sprintf("(and (not (= %s nil)) (= (ftag %s) 0))", n, n))
 	}
+	p.constGlobalFacts()
 	// distinct free-variable cells
 	for i := 0; i < len(fn.FreeVars); i++ {
 		for j := i + 1; j < len(fn.FreeVars); j++ {
@@ -305,7 +306,7 @@ func (fx *FnCtx) pkgTypes() *types.Package {
 }
 
 func (p *Path) specCtx() *SpecCtx {
-	return &SpecCtx{p: p, st: &p.st, old: &p.entry, vars: p.vars, pkg: p.fx.pkgTypes(), fn: p.fx.fn}
+	return &SpecCtx{p: p, st: &p.st, old: &p.entry, vars: map[string]Val{}, params: p.vars, pkg: p.fx.pkgTypes(), fn: p.fx.fn}
 }
 
 func (p *Path) assumeClause(c *SpecCtx, cl Clause, what string) {
@@ -439,10 +440,17 @@ func (fx *FnCtx) loopPath(head *ssa.BasicBlock) *Path {
 		v := Val{T: nm, Ty: phi.Type()}
 		p.vals[phi] = v
 		p.assumeWF(nm, phi.Type())
+		if p.loopStart == nil {
+			p.loopStart = map[string]Val{}
+		}
+		if phi.Comment != "" {
+			p.loopStart[phi.Comment] = v
+		}
 	}
 	ls := fx.loopSpec(n)
 	c := p.specCtx()
 	c.loop = head
+	p.loopStartState = p.st.clone()
 	if ls != nil {
 		for _, inv := range ls.Invs {
 			p.assumeClause(c, inv, fmt.Sprintf("loop %d invariant", n))
@@ -531,6 +539,35 @@ func (p *Path) arriveAtLoop(head, pred *ssa.BasicBlock) {
 				lab = fmt.Sprint(k + 1)
 			}
 			q.oblige("inv."+lab, fmt.Sprintf("loop%d.%s", n, kind), inv.Src, t)
+		}
+		if back && p.startLoop == head {
+			// two-state step clauses: x = value at the start of this iteration, next_x = value for the next one
+			vars := map[string]Val{}
+			for name, v0 := range p.loopStart {
+				vars[name] = v0
+			}
+			for phi, v1 := range newVals {
+				if phi.Comment != "" {
+					vars["next_"+phi.Comment] = v1
+				}
+			}
+			sc := q.specCtx().with(vars)
+			sc.loop = head
+			sc.old = &q.entry
+			sc.st = &q.loopStartState
+			sc.cur = &q.st
+			for k, stc := range ls.Steps {
+				t, err := sc.EvalBool(stc.E)
+				if err != nil {
+					q.specError(fmt.Sprintf("loop %d step", n), stc, err)
+					continue
+				}
+				lab := stc.Label
+				if lab == "" {
+					lab = fmt.Sprint(k + 1)
+				}
+				q.oblige("step."+lab, fmt.Sprintf("loop%d", n), stc.Src, t)
+			}
 		}
 		if back && ls.Decreases != nil && p.startLoop == head && p.dec0 != "" {
 			if d, err := c.Eval(ls.Decreases.E); err == nil {
@@ -642,11 +679,12 @@ func (p *Path) doReturn(r *ssa.Return) {
 		}
 		vars[fmt.Sprintf("result%d", i)] = v
 		if i < res.Len() && res.At(i).Name() != "" && res.At(i).Name() != "_" {
-			vars[res.At(i).Name()+"'"] = v
+			vars[res.At(i).Name()] = v
 			vars["ret_"+res.At(i).Name()] = v
 		}
 	}
 	p.checkPost(site, vars, false)
+	p.checkLoopExit(site, vars)
 	p.cover("return", site)
 	p.finish()
 }
@@ -676,6 +714,41 @@ func (p *Path) checkPost(site string, vars map[string]Val, panicExit bool) {
 			lab = fmt.Sprint(k + 1)
 		}
 		p.oblige(kind+"."+lab, site, e.Src, t)
+	}
+}
+
+// checkLoopExit: `exit` clauses of the loop this fragment started in hold at every return reached from inside it.
+func (p *Path) checkLoopExit(site string, rvars map[string]Val) {
+	if p.startLoop == nil {
+		return
+	}
+	n := p.fx.loopHeads[p.startLoop]
+	ls := p.fx.loopSpec(n)
+	if ls == nil {
+		return
+	}
+	vars := map[string]Val{}
+	for k, v := range rvars {
+		vars[k] = v
+	}
+	for name, v0 := range p.loopStart {
+		vars[name] = v0
+	}
+	c := p.specCtx().with(vars)
+	c.loop = p.startLoop
+	c.st = &p.loopStartState
+	c.cur = &p.st
+	for k, e := range ls.Exits {
+		t, err := c.EvalBool(e.E)
+		if err != nil {
+			p.specError(fmt.Sprintf("loop %d exit", n), e, err)
+			continue
+		}
+		lab := e.Label
+		if lab == "" {
+			lab = fmt.Sprint(k + 1)
+		}
+		p.oblige("exit."+lab, fmt.Sprintf("loop%d.%s", n, site), e.Src, t)
 	}
 }
 
@@ -729,6 +802,27 @@ func (p *Path) localByName(name string, c *SpecCtx) (Val, bool) {
 			if phi.Comment == name {
 				return p.val(phi), true
 			}
+		}
+	}
+	// a variable merged before the loop (phi in a dominating block): the closest one
+	if c.loop != nil {
+		var best *ssa.Phi
+		for _, b := range fx.fn.Blocks {
+			if b == c.loop || !b.Dominates(c.loop) {
+				continue
+			}
+			for _, in := range b.Instrs {
+				phi, ok := in.(*ssa.Phi)
+				if !ok {
+					break
+				}
+				if phi.Comment == name && (best == nil || best.Block().Dominates(b)) {
+					best = phi
+				}
+			}
+		}
+		if best != nil {
+			return p.val(best), true
 		}
 	}
 	// unique debug reference
